@@ -85,16 +85,16 @@ Definition is_owned (inv : N) (t : ttype) : bool := match t with TOwned i => N.e
 Definition is_invite (inv : N) (t : ttype) : bool := match t with TInvite i _ _ => N.eqb i inv | _ => false end.
 
 (* invite_accepted, generic in the token the consumed invitation is removed from *)
-Definition invite_accepted_at (where : token -> N -> token) (m : pm) (t : ttype) (p : peer) : option pm :=
+Definition invite_accepted_at (at_tok : token -> N -> token) (m : pm) (t : ttype) (p : peer) : option pm :=
   let tk := token_of (pm_secret m) (p_pub p) in                 (* the NEW peer's pairwise token *)
   let m1 := push m tk (TAllowed (p_key p)) in
   match t with
   | TOwned inv =>
       Some {| pm_app := pm_app m1; pm_secret := pm_secret m1;
-              pm_tokens := remove_first (where tk inv) (is_owned inv) (pm_tokens m1) |}
+              pm_tokens := remove_first (at_tok tk inv) (is_owned inv) (pm_tokens m1) |}
   | TInvite inv _ _ =>
       Some {| pm_app := pm_app m1; pm_secret := pm_secret m1;
-              pm_tokens := remove_first (where tk inv) (is_invite inv) (pm_tokens m1) |}
+              pm_tokens := remove_first (at_tok tk inv) (is_invite inv) (pm_tokens m1) |}
   | TAllowed _ => None                                           (* unreachable!() *)
   end.
 (* the code as it is: allowed_token.get_mut(&token) with token = the pairwise token *)
